@@ -127,8 +127,8 @@ func (c *Ctx) nullableFields() map[string]bool {
 			if n != "encoding/json.Unmarshal" && n != "github.com/go-jose/go-jose/v3/json.Unmarshal" {
 				return
 			}
-			if mi, isMI := cl.Call.Args[1].(*ssa.MakeInterface); isMI {
-				visitT(mi.X.Type())
+			for _, t := range c.decodeTargetTypes(cl.Call.Args[1], 0) {
+				visitT(t)
 			}
 		})
 	}
